@@ -15,7 +15,7 @@ class LostAnchor(Exception):
 
 BROADCAST_IN_LOOPS = ['broadcast use lib::group_lib;']
 # optional extraction groups -> the contract container they feed
-GROUP_CONTAINERS = {'flags': 'Rule'}
+GROUP_CONTAINERS = {'flags': 'Rule', 'pretty': 'IndexedStringLineIterator'}
 
 # --------------------------------------------------------------------------------------
 # contract files
@@ -116,10 +116,16 @@ class Out:
         self.force_assume = {}   # qualified fn name -> reason (set by the driver after Verus rejected the fn)
         self.unreachable = {}    # qualified fn name -> reason
         self.failed_groups = {}  # optional group -> reason
+        self.group_snaps = {}
         self.broadcast_stmt = 'broadcast use lib::group_lib;'
     def emit(self, text):
         for l in text.split('\n'):
             self.lines.append(l)
+    def snapshot(self):
+        return (len(self.lines), len(self.clause_index), len(self.fn_index), len(self.log), dict(self.unreachable))
+    def rollback(self, snap):
+        del self.lines[snap[0]:]; del self.clause_index[snap[1]:]; del self.fn_index[snap[2]:]; del self.log[snap[3]:]
+        self.unreachable = snap[4]
     @property
     def lineno(self):
         return len(self.lines) + 1
@@ -179,7 +185,7 @@ def apply_rewrites(fn, sig, body, contract, log):
             # fn f(mut self, ...) { B }  ->  fn f(self, ...) { let mut self_ = self; B[self -> self_] }
             if len(re.findall(r'\bmut self\b', sig)) != 1:
                 raise LostAnchor('%s: X3 expects exactly one `mut self`' % fn)
-            sig = re.sub(r'\bmut self\b', 'self', sig)
+            sig = re.sub(r"(&\s*(?:'\w+\s+)?)?\bmut self\b", lambda m: m.group(0) if m.group(1) else 'self', sig)   # not `&mut self`
             spans = lex_spans(body)
             nb = []
             for kind, a, b in spans:
@@ -332,7 +338,7 @@ def apply_hints(fn, body, contract, log):
         log.append({'rule': 'X9', 'fn': fn, 'what': 'ghost closure contract after %r' % anchor})
     return body
 
-def emit_fn(out, item, relfile, container, contracts, in_trait_decl=False, indent='', as_free=None):
+def emit_fn(out, item, relfile, container, contracts, in_trait_decl=False, indent='', as_free=None, sig_subst=None):
     kind, name = header_kind_name(item.header)
     key = (relfile, container, name)
     qual = (container + '::' if container != '-' else '') + name
@@ -342,6 +348,11 @@ def emit_fn(out, item, relfile, container, contracts, in_trait_decl=False, inden
         out.log.append({'rule': 'X1', 'fn': qual, 'what': 'dropped ' + '; '.join(d.split('\n')[0][:50] for d in dropped)})
     sig = item.header
     body = item.body
+    for a, b in (sig_subst or []):
+        # X6: a type that only exists through the dropped trait relation (`Self::Item`) is spelled out
+        if a in sig:
+            sig = sig.replace(a, b)
+            out.log.append({'rule': 'X6', 'fn': qual, 'what': 'signature: %r -> %r' % (a, b)})
     if as_free is not None:
         # X6: a trait-impl method is verified as a free function with the same parameters and body
         newname = as_free['prefix'] + '__' + name
@@ -391,7 +402,7 @@ def emit_fn(out, item, relfile, container, contracts, in_trait_decl=False, inden
             pass
         # the body is not looked at any more: a `mut self` binding mode (rejected by Verus even on external_body
         # functions) is dropped from the signature
-        sig = re.sub(r'\bmut self\b', 'self', sig)
+        sig = re.sub(r"(&\s*(?:'\w+\s+)?)?\bmut self\b", lambda m: m.group(0) if m.group(1) else 'self', sig)   # not `&mut self`
         out.unreachable[qual] = fallback_reason
         out.log.append({'rule': 'FALLBACK', 'fn': qual, 'what': 'external_body, contract assumed for callers: ' + fallback_reason})
         body = ' unimplemented!() ' if body is not None else None
@@ -458,6 +469,43 @@ def emit_match_as_fn(out, it, relfile, want, contracts):
     out.fn_index.append({'name': want['as'], 'file': relfile, 'line_lo': lo, 'line_hi': out.lineno - 1, 'mode': 'verify'})
     out.log.append({'rule': 'X13', 'fn': want['as'], 'what': 'the match expression after %r of %s emitted as a function of the scrutinee' % (head, it.header[:60])})
 
+def emit_plain_item(out, it, src, relfile, want, contracts):
+    if want['kind'] == 'fn':
+        emit_fn(out, it, relfile, '-', contracts)
+        out.emit('')
+        return
+    cname = want.get('as') or container_name(it.header)
+    header = it.header
+    if want.get('header_rewrite'):
+        a, b = want['header_rewrite']
+        if header.count(a) != 1: raise LostAnchor('%s: header rewrite anchor lost' % relfile)
+        header = header.replace(a, b)
+        out.log.append({'rule': want.get('rule', 'X?'), 'fn': cname, 'what': 'header %r -> %r' % (a, b)})
+    out.emit(header + ' {')
+    inner = find_items(src[it.body_open + 1:it.body_close], relfile)
+    seen = set()
+    for sub in inner:
+        k, n = header_kind_name(sub.header)
+        if k != 'fn':
+            if k == 'type' and want.get('keep_assoc_types'):
+                out.emit('    ' + sub.header + ';')
+                continue
+            if k == 'type' and want.get('drop_assoc_types'):
+                out.log.append({'rule': 'X6', 'fn': cname, 'what': 'associated `%s` dropped (the trait relation is dropped)' % re.sub(r'\s+', ' ', sub.header)})
+                continue
+            raise LostAnchor('%s: unexpected %s in %s' % (relfile, k, cname))
+        seen.add(n)
+        if n in want.get('drop', []):
+            out.log.append({'rule': 'X8', 'fn': cname + '::' + n, 'what': 'not extracted (not under contract)'})
+            continue
+        # sub.src is the slice text; rebuild an Item view whose indices are local
+        emit_fn(out, sub, relfile, cname, contracts, indent='    ', sig_subst=want.get('sig_subst'))
+        out.emit('')
+    for n in want.get('expect', []):
+        if n not in seen: raise LostAnchor('%s: %s::%s disappeared' % (relfile, cname, n))
+    out.emit('}')
+    out.emit('')
+
 def container_name(header):
     """impl<'a> ParseState<'a>  ->  ParseState ; impl<'a, T> ParseResultExtras<'a, T> for ParseResult<'a, T> -> ParseResultExtras_for_ParseResult"""
     h = re.sub(r'\s+', ' ', header)
@@ -513,6 +561,17 @@ def extract(repo, plan, contracts, out):
                     out.unreachable[want['as']] = 'lost anchor: %s' % e
                     out.log.append({'rule': 'FALLBACK', 'fn': want['as'], 'what': 'not extracted: %s' % e})
                 continue
+            if grp and want['kind'] in ('impl', 'fn'):
+                # member of an optional group: a lost anchor inside it fails the group only (nothing half-emitted stays)
+                snap = out.group_snaps.setdefault(grp, out.snapshot())   # the group's impls are adjacent in the plan: all of them go
+                try:
+                    emit_plain_item(out, it, src, relfile, want, contracts)
+                except LostAnchor as e:
+                    out.rollback(snap)
+                    for k, c in contracts.items():
+                        if k[0] == relfile and k[1] == GROUP_CONTAINERS.get(grp): c.used = False
+                    out.failed_groups[grp] = str(e)
+                continue
             if want['kind'] == 'type':
                 emit_type(out, it, relfile)
             elif want['kind'] == 'fn':
@@ -537,34 +596,7 @@ def extract(repo, plan, contracts, out):
                     emit_fn(out, sub, relfile, cname, contracts, as_free={'prefix': cname, 'subst': want.get('subst', [])})
                     out.emit('')
             elif want['kind'] in ('impl', 'trait'):
-                cname = want.get('as') or container_name(it.header)
-                header = it.header
-                if want.get('header_rewrite'):
-                    a, b = want['header_rewrite']
-                    if header.count(a) != 1: raise LostAnchor('%s: header rewrite anchor lost' % relfile)
-                    header = header.replace(a, b)
-                    out.log.append({'rule': want.get('rule', 'X?'), 'fn': cname, 'what': 'header %r -> %r' % (a, b)})
-                out.emit(header + ' {')
-                inner = find_items(src[it.body_open + 1:it.body_close], relfile)
-                seen = set()
-                for sub in inner:
-                    k, n = header_kind_name(sub.header)
-                    if k != 'fn':
-                        if k == 'type' and want.get('keep_assoc_types'):
-                            out.emit('    ' + sub.header + ';')
-                            continue
-                        raise LostAnchor('%s: unexpected %s in %s' % (relfile, k, cname))
-                    seen.add(n)
-                    if n in want.get('drop', []):
-                        out.log.append({'rule': 'X8', 'fn': cname + '::' + n, 'what': 'not extracted (not under contract)'})
-                        continue
-                    # sub.src is the slice text; rebuild an Item view whose indices are local
-                    emit_fn(out, sub, relfile, cname, contracts, indent='    ')
-                    out.emit('')
-                for n in want.get('expect', []):
-                    if n not in seen: raise LostAnchor('%s: %s::%s disappeared' % (relfile, cname, n))
-                out.emit('}')
-                out.emit('')
+                emit_plain_item(out, it, src, relfile, want, contracts)
             else:
                 raise LostAnchor('bad plan kind')
     # functions of failed optional groups: their contracts exist but the function could not be extracted
